@@ -35,15 +35,13 @@ THEOREMS: list[str] = [
     "IrVerif.Passes.C05_cse",
     "IrVerif.Passes.C05_rm_init_inputs",
     "IrVerif.Passes.C05_add_init_inputs",
-    "IrVerif.Passes.C05_clear_meta",
-    "IrVerif.Passes.C05_name_fix",
     "IrVerif.Passes.C05_lift_const",
     "IrVerif.Passes.C05_dedup",
     "IrVerif.Passes.C05_output_fix",
     "IrVerif.Passes.C05_compose",
     "IrVerif.Passes.C05_lift_sub_inits",
     "IrVerif.Passes.C05_toposort",
-    "IrVerif.Passes.C05_toposort_sorted",
+    "IrVerif.Passes.C05_cse_skips",
 ]
 ASSUMPTIONS = [
     "operator semantics = onnx.reference.ReferenceEvaluator (onnx 1.22) on 2 generated input sets per model; "
@@ -71,12 +69,20 @@ ASSUMPTIONS = [
     "names are not part of the property (number and order are): a main-graph input/output renamed by OutputFixPass "
     "(which has to separate two values that shared one name) is exempt, by any other pass it is a failure",
     "DeduplicateHashedInitializersPass = DeduplicateInitializersPass assuming no SHA-512 collision",
+    "stochastic-twins stream: for RandomNormal/Uniform(+Like), Multinomial and Bernoulli a model with two identical "
+    "UNSEEDED nodes is run through every CSE variant; both nodes must survive (structural oracle) and the Lean "
+    "model must agree; generated models seed their random operators so that the evaluator is deterministic",
+    "every Sequential / PassManager chain of the reuse stream is also compared with applying its passes one by one",
     "instance-reuse stream: one object of every pass (27 variants) and of three Sequential/PassManager chains per "
     "worker is applied to all models of the worker in turn, including pairs of models that define local::F with the "
     "same identifier but a different call structure; its serialized result must equal that of a fresh object "
     "(reuse_checks / reuse_twin_pairs in the distribution)",
-    "TopologicalSortPass: identity on valid (sorted) models by stability (C12); the permutation theorem is exercised "
-    "on shuffled variants of every generated model",
+    "TopologicalSortPass: in sequences the model is the identity on valid (sorted) models (stability, C12; not a "
+    "property theorem); the permutation theorem C05_toposort is exercised on every generated model with the node "
+    "list of every graph put into a random (unsorted, acyclic) order: the real pass must return a model b with "
+    "reorderModel m0 b, validModel m0, validModel b (the hypotheses of the theorem), and b evaluates like m0",
+    "ClearMetadataAndDocStringPass and NameFixPass are the identity on the modelled IR (no names/metadata): no "
+    "property theorem; correspondence (structure unchanged) and oracle only",
 ]
 
 # === CORRESPONDENCE ===========================================================================
@@ -318,23 +324,10 @@ def _run_real(name: str, model):
 
 
 def _shuffle_nodes(model, rng) -> int:
-    """permute the node list of every graph of the model by swaps of adjacent independent nodes (the
-    result is again topologically ordered); returns the number of swaps"""
-    import onnx_ir as ir
-
-    def deep_uses(n) -> set[int]:
-        s = {id(v) for v in n.inputs if v is not None}
-        for a in n.attributes.values():
-            if a.is_ref():
-                continue
-            subs = [a.value] if a.type == ir.AttributeType.GRAPH else (
-                list(a.value) if a.type == ir.AttributeType.GRAPHS else [])
-            for sg in subs:
-                for m in sg:
-                    s |= deep_uses(m)
-        return s
-
-    total = 0
+    """put the node list of every graph of the model (main graph, subgraphs, function bodies) into a random
+    order: the graph stays acyclic but is in general NOT topologically ordered any more; returns the number of
+    graphs whose order changed"""
+    changed = 0
     graphs = list(model.graphs())
     for f in model.functions.values():
         graphs.append(f)
@@ -343,41 +336,60 @@ def _shuffle_nodes(model, rng) -> int:
         nodes = list(g)
         if len(nodes) < 2:
             continue
-        uses = {id(n): deep_uses(n) for n in nodes}
-        swaps = 0
-        for _ in range(2 * len(nodes)):
-            i = rng.randrange(len(nodes) - 1)
-            a, b = nodes[i], nodes[i + 1]
-            if {id(v) for v in a.outputs} & uses[id(b)]:
-                continue
-            nodes[i], nodes[i + 1] = b, a
-            swaps += 1
-        if swaps:
+        perm = list(nodes)
+        rng.shuffle(perm)
+        if any(x is not y for x, y in zip(perm, nodes)):
             g.remove(nodes)
-            g.extend(nodes)
-            total += swaps
-    return total
+            g.extend(perm)
+            changed += 1
+    return changed
 
 
 def _correspond_reorder(part, case_id, ir_model_before_factory) -> None:
-    """TopologicalSortPass as a permutation (theorem C05_toposort): shuffle a fresh model into another
-    valid order, sort it with the real pass, and let the driver check that the result is a nest-wise
-    permutation of valid models"""
+    """TopologicalSortPass as a permutation (theorem C05_toposort).  The node lists of a fresh model m0 are
+    shuffled into an UNSORTED acyclic order a; the real pass sorts a into b.  The driver checks the hypotheses
+    of the theorem for (m0, b): reorderModel m0 b, validModel m0, validModel b — so that denote b = denote m0 —
+    and that b is a permutation of what the pass was given (reorderModel a b); the evaluation oracle compares
+    b with m0.  Value identities are shared by the three encodings (one Encoder)."""
+    import onnx_ir as ir
+
     try:
         model = ir_model_before_factory()
+        enc = Encoder()
+        m0 = enc.model(model)
+        raw0 = ir.serde.serialize_model(model).SerializeToString()
         rng = random.Random("C05:shuffle:" + str(case_id.get("sha1", "")))
-        swaps = _shuffle_nodes(model, rng)
-        a = Encoder().model(model)
+        changed = _shuffle_nodes(model, rng)
+        a = enc.model(model)
         PASSES["TopologicalSortPass"]()(model)
-        b = Encoder().model(model)
+        b = enc.model(model)
+        raw_b = ir.serde.serialize_model(model).SerializeToString()
     except Unencodable:
         part.count("corr_skipped:unencodable")
         return
     except Exception as e:  # noqa: BLE001
-        part.count("corr_skipped:shuffle_raised:" + type(e).__name__)
+        part["failures"].append({"signature": f"raise:TopologicalSortPass:shuffled:{type(e).__name__}",
+                                 "what": f"TopologicalSortPass on a shuffled acyclic model raised {type(e).__name__}: {e}"[:300],
+                                 "case": {"origin": case_id}})
         return
-    part.count("corr_shuffle_swaps=" + ("0" if swaps == 0 else "1-5" if swaps <= 5 else ">5"))
-    _CORR_BUF.append(({"m": "passes.reorder", "a": a, "b": b}, "reorder", [swaps], None, case_id))
+    part.count("corr_shuffled_graphs=" + ("0" if changed == 0 else "1-2" if changed <= 2 else ">2"))
+    if canon(b) != canon(m0):
+        part.count("corr_sorted_differs_from_original_order")
+    _CORR_BUF.append(({"m": "passes.reorder", "a": m0, "b": b}, "reorder", ["m0->b", changed], None, case_id))
+    _CORR_BUF.append(({"m": "passes.reorder", "a": a, "b": b}, "reorder", ["a->b", changed], None, case_id))
+    # evaluation oracle: the sorted model computes what the original computes
+    try:
+        p0, pb = _parse(raw0), _parse(raw_b)
+        inputs = _default_inputs(p0)
+        diff = _compare(_analyse(p0, inputs), _analyse(pb, inputs))
+    except Exception as e:  # noqa: BLE001
+        diff = ("oracle-raise", f"{type(e).__name__}: {e}"[:200])
+    if diff is not None:
+        sig = f"{diff[0]}:TopologicalSortPass:shuffled-model"
+        if not any(f["signature"] == sig for f in part["failures"]):
+            part["failures"].append({"signature": sig, "what": f"sorting a shuffled model: {diff[1]}"[:400],
+                                     "case": {"model_b64": base64.b64encode(raw0).decode(), "seq": ["TopologicalSortPass"],
+                                              "origin": case_id, "kind": "shuffled"}})
 
 
 _CORR_BUF: list[tuple] = []  # (request, kind, where, expected canonical model, case_id)
@@ -432,8 +444,13 @@ def correspond(part, case_id, ir_model_before_factory, seq_names):
             skip = "dce_ghost_uses_from_earlier_pass"
         try:
             _run_real(name, model)
-        except Exception as e:  # noqa: BLE001 - the oracle reports raising passes; nothing to compare
+        except Exception as e:  # noqa: BLE001
             part.count("corr_skipped:real_pass_raised:" + _base_name(name) + ":" + type(e).__name__)
+            if lean_name is not None:
+                sig = f"corr-raise:{_base_name(name)}:{type(e).__name__}"
+                if not any(f["signature"] == sig for f in part["failures"]) and len(part["failures"]) < 40:
+                    part["failures"].append({"signature": sig, "what": f"{name} raised {type(e).__name__} at step {i} of "
+                                             f"{list(seq_names)}: {e}"[:400], "case": {"origin": case_id, "seq": list(seq_names)}})
             close_segment(before)
             break
         if lean_name is None:
@@ -471,19 +488,34 @@ def corr_flush(part) -> None:
         return
     buf = list(_CORR_BUF)
     _CORR_BUF.clear()
-    outs = lean_batch([b[0] for b in buf])
+    from harness.common import Infra
+
+    for attempt in range(4):
+        try:
+            outs = lean_batch([b[0] for b in buf])
+            break
+        except Infra:
+            if attempt == 3:
+                raise
+            time.sleep(5 * (attempt + 1))
     for (_req, kind, where, expect, case_id), out in zip(buf, outs):
         part.count("corr_" + kind)
         if "err" in out:
             part.disagree(f"driver error at {kind} {where}: {out['err']}", case_id, out, None)
             continue
         if kind == "reorder":
-            if out.get("reorder") and out.get("valid_a") and out.get("valid_b"):
+            ok = out.get("reorder") and out.get("valid_b") and (out.get("valid_a") or where[0] == "a->b")
+            if where[0] == "a->b" and where[1] and out.get("valid_a"):
+                part.count("corr_shuffled_order_still_sorted")
+            if ok:
                 part.count("corr_agree")
             else:
-                part.disagree(f"TopologicalSortPass on a shuffled model: not a valid permutation: {out}",
-                              case_id, out, None)
+                part.disagree(f"TopologicalSortPass on a shuffled model ({where[0]}): result is not a valid "
+                              f"permutation: {out}", case_id, out, None)
             continue
+        if not out.get("chain_ok"):
+            part.disagree(f"{kind} {where}: the hypotheses of the C05 theorems do not hold on this generated case "
+                          f"(chainOK false, validModel {out.get('valid')}, why {out.get('why')})", case_id, None, None)
         if kind == "step":
             part.count("corr_valid=" + str(out.get("valid")))
             if not out.get("valid"):
@@ -2348,6 +2380,42 @@ def _classify(kind: str, pass_name: str, model: onnx.ModelProto, fail: dict) -> 
     return "ops=" + "+".join(sorted(ops)[:6])
 
 
+# ---- confirmation of a suspected cause (a feature being PRESENT in the model is not the cause)
+
+
+def _neutralise(feature: str, model: onnx.ModelProto) -> onnx.ModelProto | None:
+    """The same model with the suspected cause of `feature` switched off, or None when there is no neutraliser."""
+    if feature == "batchnorm-training":
+        m = _copy(model)
+        hit = False
+        for _o, nodes in _node_lists(m):
+            for n in nodes:
+                if n.op_type == "BatchNormalization":
+                    for a in n.attribute:
+                        if a.name == "training_mode" and a.i == 1:
+                            a.i = 0
+                            hit = True
+        return m if hit else None
+    return None
+
+
+def _classify_confirmed(kind: str, pass_name: str, model: onnx.ModelProto, fail: dict, seq: list, inputs: list) -> str:
+    """`_classify`, but a cause-specific feature is kept only when the failure disappears once the cause is
+    neutralised (D36: training_mode=1 -> 0 on every BatchNormalization); otherwise the generic class is used."""
+    feature = _classify(kind, pass_name, model, fail)
+    neutral = _neutralise(feature, model)
+    if neutral is None:
+        return feature
+    try:
+        r = _check_sequence(neutral, list(seq), inputs, {})
+    except Exception:  # noqa: BLE001
+        return "unconfirmed-" + feature
+    if r["status"] == "fail" and _base_name(r.get("pass", "")) == _base_name(pass_name):
+        # still fails without the suspected cause: something else is wrong
+        return "not-" + feature + ":ops=" + "+".join(sorted(_op_types(model))[:6])
+    return feature
+
+
 # ---- minimisation
 
 
@@ -2470,7 +2538,7 @@ def _detail_class(kind: str, detail: str) -> str:
     return re.sub(r"'[^']*'|\"[^\"]*\"|%\S+|\d+", "#", detail)[:50]
 
 
-def _minimise(model, seq, inputs, kind, pass_name, budget_s: float = 4.0, max_evals: int = 250):
+def _minimise(model, seq, inputs, kind, pass_name, budget_s: float = 300.0, max_evals: int = 120):
     """Greedy shrinking of (model, seq) while the same (kind, pass) failure stays. Returns (model, seq, inputs, fail)."""
     t0 = time.time()
     evals = [0]
@@ -2601,7 +2669,7 @@ def oracle(part, case_id, proto_before: onnx.ModelProto, seq_names: list[str], i
     if res["status"] != "fail":
         return res
     kind, pname = res["kind"], res["pass"]
-    pre = _classify(kind, pname, proto_before, res)
+    pre = _classify_confirmed(kind, pname, proto_before, res, list(seq_names[: res["step"] + 1]), inputs)
     pre_key = (kind, _base_name(pname), pre if not pre.startswith(("ops=",)) and ":ops=" not in pre else "?")
     seen = state.setdefault("seen", {})
     seen[pre_key] = seen.get(pre_key, 0) + 1
@@ -2621,7 +2689,7 @@ def oracle(part, case_id, proto_before: onnx.ModelProto, seq_names: list[str], i
         m2, s2, f2, fl2 = _minimise(model, seq, inputs, kind, pname)
         if fl2 is not None:
             model, seq, feeds, fail = m2, s2, f2, fl2
-    feature = _classify(kind, pname, model, fail)
+    feature = _classify_confirmed(kind, pname, model, fail, seq, feeds)
     signature = f"{kind}:{_base_name(pname)}:{feature}"
     label = _ort_opinion(model, fail.get("after"), feeds) if kind == "eval-diff" else ""
     case = {
@@ -2656,7 +2724,7 @@ def _text(model) -> str:
 
 # ================================================================================ (D) run / replay
 
-N_RANDOM_SEQ = 9  # random sequences per model, in addition to every single pass
+N_RANDOM_SEQ = 18  # random sequences per model, in addition to every single pass
 N_CHUNKS = 16
 
 
@@ -2697,6 +2765,28 @@ def _make_instance(name: str):
             return ir.passes.Sequential(*passes)
         return ir.passes.PassManager(passes, steps=2, early_stop=True)
     return PASSES[name]()
+
+
+def _apply_stepwise(name: str, raw: bytes) -> tuple:
+    """what a Sequential / PassManager chain is documented to do, with fresh pass objects applied one by one"""
+    import onnx_ir as ir
+
+    kind, names = _REUSE_CHAINS[name]
+    try:
+        model = ir.serde.deserialize_model(_parse(raw))
+        overall = False
+        for _step in range(1 if kind == "seq" else 2):
+            modified = False
+            for n in names:
+                r = PASSES[n]()(model)
+                model = r.model
+                modified = modified or bool(r.modified)
+            overall = overall or modified
+            if kind == "pm" and not modified:
+                break
+        return ("ok", ir.serde.serialize_model(model).SerializeToString(), overall)
+    except Exception as e:  # noqa: BLE001
+        return ("raised", "PassError" if True else type(e).__name__, None)
 
 
 def _apply_bytes(inst, raw: bytes) -> tuple:
@@ -2760,6 +2850,18 @@ def _reuse_check(part, raw: bytes, prev_raw: bytes | None, origin) -> None:
         got = _apply_bytes(inst, raw)
         want = _apply_bytes(_make_instance(name), raw)
         part.count("reuse_checks")
+        if name in _REUSE_CHAINS:
+            step = _apply_stepwise(name, raw)
+            part.count("chain_stepwise_checks")
+            if step != want:
+                sig = f"chain-vs-stepwise:{_base_name(name)}:differs"
+                if not any(f["signature"] == sig for f in part["failures"]) and len(part["failures"]) < 40:
+                    part["failures"].append({
+                        "signature": sig,
+                        "what": f"{name}: the result differs from applying its passes one by one "
+                                f"({want[0]}/{want[2]} vs {step[0]}/{step[2]})",
+                        "case": {"kind": "chain-vs-stepwise", "pass": name, "origin": origin,
+                                 "model_b64": base64.b64encode(raw).decode(), "seq": [name]}})
         if got == want:
             continue
         # confirm: a fresh instance that sees the same recent history must show the same deviation (state kept
@@ -2802,6 +2904,52 @@ def _replay_instance_state(part, case: dict) -> None:
     if got != want:
         part["failures"].append({"signature": f"instance-state:{_base_name(name)}:reused-instance-differs-from-fresh",
                                  "what": f"{name}: reused instance differs from a fresh one", "case": case})
+
+
+def _stochastic_twin_models() -> list[tuple[str, bytes]]:
+    """checker-valid models with two IDENTICAL unseeded nodes of every stochastic operator (both outputs are
+    graph outputs): the two nodes draw independently, so CSE must keep both (structural oracle: the evaluator
+    is not deterministic on them)"""
+    vi = oh.make_tensor_value_info
+    specs = [
+        ("RandomNormal", [], {"shape": [3], "dtype": 1}, (_F, [3])),
+        ("RandomUniform", [], {"shape": [3], "dtype": 1}, (_F, [3])),
+        ("RandomNormalLike", ["x"], {}, (_F, [3])),
+        ("RandomUniformLike", ["x"], {}, (_F, [3])),
+        ("Bernoulli", ["x"], {}, (_F, [3])),
+        ("Multinomial", ["p"], {"sample_size": 2}, (TP.INT32, [1, 2])),
+    ]
+    out = []
+    for op, ins, attrs, (et, shape) in specs:
+        nodes = [oh.make_node(op, ins, ["r1"], **attrs), oh.make_node(op, ins, ["r2"], **attrs),
+                 oh.make_node("Identity", ["r2"], ["r3"])]
+        g = oh.make_graph(nodes, "g", [vi("x", _F, [3]), vi("p", _F, [1, 3])],
+                          [vi("r1", et, shape), vi("r3", et, shape)])
+        m = oh.make_model(g, opset_imports=[oh.make_opsetid("", 18)], ir_version=10)
+        onnx.checker.check_model(m, full_check=True)
+        out.append((op, m.SerializeToString()))
+    return out
+
+
+def _stochastic_twins_stream(part) -> None:
+    import onnx_ir as ir
+
+    cse = [n for n in sorted(PASSES.keys()) if n.startswith("CommonSubexpressionEliminationPass")]
+    for op, raw in _stochastic_twin_models():
+        for name in cse:
+            part.count("stochastic_twin_checks")
+            model = ir.serde.deserialize_model(_parse(raw))
+            PASSES[name]()(model)
+            left = sum(1 for n in model.graph if n.op_type == op)
+            if left != 2:
+                sig = f"cse-merged-stochastic:CommonSubexpressionEliminationPass:{op}"
+                if not any(f["signature"] == sig for f in part["failures"]):
+                    part["failures"].append({
+                        "signature": sig,
+                        "what": f"{name} merged two unseeded {op} nodes (they draw independently): {left} left of 2",
+                        "case": {"model_b64": base64.b64encode(raw).decode(), "seq": [name], "kind": "stochastic-twins"}})
+            correspond(part, {"stream": "stochastic-twins", "op": op, "sha1": _sha(raw)},
+                       lambda b=raw: ir.serde.deserialize_model(_parse(b)), [name])
 
 
 def _work(chunk: tuple) -> dict:
@@ -2892,6 +3040,7 @@ def run(ctx: Ctx) -> None:
         proto.ParseFromString(base64.b64decode(case["model_b64"]))
         correspond(part, {"corpus": True}, lambda b=proto.SerializeToString(): ir.serde.deserialize_model(_parse(b)),
                    list(case["seq"]))
+    _stochastic_twins_stream(part)
     corr_flush(part)
     ctx.merge(part)
     n = ctx.pick(320, 6400)
@@ -2911,6 +3060,13 @@ def replay(ctx: Ctx, obj: dict) -> None:
     part = Part()
     if case.get("kind") == "instance-state":
         _replay_instance_state(part, case)
+    elif case.get("kind") == "stochastic-twins":
+        _stochastic_twins_stream(part)
+    elif case.get("kind") == "chain-vs-stepwise":
+        raw = base64.b64decode(case["model_b64"])
+        if _apply_stepwise(case["pass"], raw) != _apply_bytes(_make_instance(case["pass"]), raw):
+            part["failures"].append({"signature": f"chain-vs-stepwise:{_base_name(case['pass'])}:differs",
+                                     "what": "chain differs from stepwise application", "case": case})
     else:
         _replay_case(part, case, {}, minimise=False)
     ctx.merge(part)
